@@ -658,6 +658,28 @@ theorem scoreToRanked_augment (uv : Option Rat) (U : List Cand) (v : ScoreBallot
     (c, s) ∈ augment uv U v ↔ (c, s) ∈ v ∨ (uv = some s ∧ c ∈ U ∧ ∀ s', (c, s') ∉ v) :=
   mem_augment uv U v c s
 
+/-- the converter as called (`all_candidates` = the frozenset of scored candidates): profiles over the same
+    candidates add up -/
+theorem scoreToRanked_top_additive (uv : Option Rat) (p₁ p₂ : SProfile) (k : Ballot)
+    (h₁ : allScoredCandidates p₁ = allScoredCandidates (p₁ ++ p₂))
+    (h₂ : allScoredCandidates p₂ = allScoredCandidates (p₁ ++ p₂)) :
+    toFun (scoreToRanked uv (p₁ ++ p₂)) k = toFun (scoreToRanked uv p₁) k + toFun (scoreToRanked uv p₂) k := by
+  unfold scoreToRanked
+  rw [h₁, h₂]
+  exact scoreToRanked_additive uv _ p₁ p₂ k
+
+/-- the universe of the converter as called: exactly the candidates scored on some ballot -/
+theorem mem_allScoredCandidates (p : SProfile) (c : Cand) :
+    c ∈ allScoredCandidates p ↔ ∃ bw ∈ p, ∃ s, (c, s) ∈ bw.1 := by
+  unfold allScoredCandidates
+  rw [mem_canonSet, List.mem_flatMap]
+  constructor
+  · rintro ⟨bw, hbw, hc⟩
+    obtain ⟨cs, hcs, rfl⟩ := List.mem_map.1 hc
+    exact ⟨bw, hbw, cs.2, hcs⟩
+  · rintro ⟨bw, hbw, s, hcs⟩
+    exact ⟨bw, hbw, List.mem_map.2 ⟨(c, s), hcs, rfl⟩⟩
+
 theorem scoreToRanked_weight_conserved (uv : Option Rat) (U : List Cand) (p : SProfile) :
     total (scoreToRankedU uv U p) = total p := by
   rw [scoreToRanked_eq_accum, accumOne_total, ← wsum_one]; simp
@@ -938,6 +960,17 @@ theorem rounded_value (d : Nat) (x : Rat) :
       (|x * ((10 ^ d : Nat) : Rat) - (z : Rat)| = 1 / 2 → |x * ((10 ^ d : Nat) : Rat)| < |(z : Rat)|) :=
   roundHalfUp_spec d x
 
+/-- any `round_method` of the decimal module: every count is rounded by itself to one of the two grid
+    points next to it (ROUND_HALF_UP is the default, characterised exactly in `rounded_value`) -/
+theorem rounded_with_image {κ : Type} [DecidableEq κ] (mode : RoundMode) (k : Nat) (p : Dict κ) (h : (dkeys p).Nodup) :
+    roundedVotesWith mode k p = p.map (fun kv => (kv.1, roundWith mode k kv.2)) := roundedVotesWith_eq mode k h
+
+theorem rounded_with_value (mode : RoundMode) (d : Nat) (x : Rat) :
+    ∃ z : Int, roundWith mode d x = (z : Rat) / ((10 ^ d : Nat) : Rat) ∧ |x * ((10 ^ d : Nat) : Rat) - (z : Rat)| < 1 :=
+  ⟨roundInt mode (x * ((10 ^ d : Nat) : Rat)), rfl, roundInt_near mode _⟩
+
+theorem rounded_with_halfUp (d : Nat) (x : Rat) : roundWith .halfUp d x = roundHalfUp d x := rfl
+
 /-- additivity on profiles with disjoint keys -/
 theorem rounded_additive_disjoint {κ : Type} [DecidableEq κ] (k : Nat) (p₁ p₂ : Dict κ)
     (h : (dkeys (p₁ ++ p₂)).Nodup) :
@@ -1041,6 +1074,20 @@ theorem invertedApproval_top_sum (p : AProfile) (hk : (dkeys p).Nodup) (hc : ∀
     (k : Approval) :
     toFun (invertedApproval p) k = wsum p (fun b => if complIn (allApproved p) b = k then 1 else 0) :=
   invertedApproval_sum _ p (invertedApproval_awf p hk hc) k
+
+/-- the converter as called: profiles over the same candidates add up -/
+theorem invertedApproval_top_additive (p₁ p₂ : AProfile)
+    (hk₁ : (dkeys p₁).Nodup) (hk₂ : (dkeys p₂).Nodup)
+    (hc : ∀ bw ∈ p₁ ++ p₂, bw.1.Pairwise (· < ·))
+    (h₁ : allApproved p₁ = allApproved (mergeDict (p₁ ++ p₂)))
+    (h₂ : allApproved p₂ = allApproved (mergeDict (p₁ ++ p₂))) (k : Approval) :
+    toFun (invertedApproval (mergeDict (p₁ ++ p₂))) k = toFun (invertedApproval p₁) k + toFun (invertedApproval p₂) k := by
+  have a₁ := invertedApproval_awf p₁ hk₁ (fun bw hbw => hc bw (List.mem_append_left _ hbw))
+  have a₂ := invertedApproval_awf p₂ hk₂ (fun bw hbw => hc bw (List.mem_append_right _ hbw))
+  unfold invertedApproval
+  rw [h₁] at a₁ ⊢
+  rw [h₂] at a₂ ⊢
+  exact invertedApproval_additive_merged _ p₁ p₂ a₁ a₂ k
 
 /-! ## non-vacuity: concrete inputs meeting the hypotheses of the conditional theorems -/
 
